@@ -21,7 +21,7 @@ from multiprocessing import Pool
 from . import common, tlc, tlaval, cli_c03
 
 INVARIANTS = ['TypeOK', 'ContractOK', 'UnvalidatedIsReal', 'NamingAfterGeometry', 'GateBeforeFinalWrite', 'AtomisticBeforeMapping',
-              'CoarseAfterMapping', 'ResidsRestoredLast', 'OneNaming', 'NamedWhenWritten', 'WrittenOrderAtOutput']
+              'CoarseAfterMapping', 'ResidsRestoredLast', 'OneNaming', 'NamedWhenWritten', 'WrittenOrderAtOutput', 'InputOrderKept']
 
 DOMAINS = {'ss': ['none', 'ss', 'collagen'], 'cys': ['auto', 'none', 'thr'], 'go': ['off', 'file', 'gen'], 'idr': [False, True],
            'posres': ['none', 'all', 'backbone'], 'merge': ['none', 'set1', 'set2', 'all'],
@@ -31,7 +31,7 @@ DOMAINS = {'ss': ['none', 'ss', 'collagen'], 'cys': ['auto', 'none', 'thr'], 'go
 
 # option value -> command line words (chains of the input: A B C, four residues each)
 OPTION_ARGS = {
-    'ss': {'none': [], 'ss': ['-ss', 'C' * 87], 'collagen': ['-collagen']},
+    'ss': {'none': [], 'ss': ['-ss', 'C' * 78], 'collagen': ['-collagen']},
     'cys': {'auto': [], 'none': ['-cys', 'none'], 'thr': ['-cys', '0.3']},
     'go': {'off': [], 'file': ['-go', 'contacts.out'], 'gen': ['-go']},
     'idr': {False: [], True: ['-idr-tune', '-id-regions', '2:3']},
@@ -122,7 +122,7 @@ def expected_sequences(vectors):
 def _prepare(work):
     os.makedirs(work, exist_ok=True)
     with open(os.path.join(work, 'in.pdb'), 'w') as fh:
-        fh.write(cli_c03.multichain_pdb('SSS'))
+        fh.write(cli_c03.multichain_pdb('SWS'))      # chain B (304 atoms) has node keys crossing 512: set order != input order
     return work
 
 
@@ -149,6 +149,18 @@ def _child(workdir, args, timeout=300):
     return {'rc': p.returncode, 'err': 'no event line (argument parser exit?)', 'events': []}
 
 
+def _residue_sequence(path):
+    """[(chain, residue name)] in file order, one entry per run of equal (chain, residue number, residue name)"""
+    out, last = [], None
+    for line in open(path):
+        if line.startswith(('ATOM', 'HETATM')):
+            key = (line[21], line[22:27], line[17:21].strip())
+            if key != last:
+                out.append([line[21], line[17:21].strip()])
+                last = key
+    return out
+
+
 def _run_vector(job):
     base, idx, v = job
     work = os.path.join(base, 'run%04d' % idx)
@@ -158,6 +170,8 @@ def _run_vector(job):
         shutil.copy(os.path.join(base, 'contacts.out'), work)
     got = _child(work, command_line(v))
     got['files'] = sorted(f for f in os.listdir(work) if f not in ('in.pdb', 'contacts.out'))
+    got['sequence_in'] = _residue_sequence(os.path.join(work, 'in.pdb'))
+    got['sequence_out'] = _residue_sequence(os.path.join(work, 'cg.pdb')) if os.path.exists(os.path.join(work, 'cg.pdb')) else None
     shutil.rmtree(work, ignore_errors=True)
     return idx, got
 
@@ -221,6 +235,15 @@ def run_part(tier, seed, ev, vd):
         if (v['gate'] == 'block') != (not outputs):
             vd.violation('pipeline-order', sc, 'gate = %s but output files present: %r' % (v['gate'], outputs))
             continue
+        # Martinize!InputOrderKept: no stage reorders the residues of a chain (virtual sites of a Go model come after them)
+        if got.get('sequence_out') is not None:
+            want_seq = got['sequence_in']
+            have = [r for r in got['sequence_out']]
+            if have[:len(want_seq)] != want_seq:
+                k = next((j for j, (a, b) in enumerate(zip(have, want_seq)) if a != b), min(len(have), len(want_seq)))
+                vd.violation('pipeline-order', sc, 'the residues are written in another order than they were read in: position %d is %r, input has %r'
+                             % (k + 1, have[k:k + 3], want_seq[k:k + 3]))
+                continue
         ev.nontrivial_case(['pipeline', exp])
     ev.sample({'kind': 'pipeline vector', 'vector': vectors[-1], 'command': command_line(vectors[-1]),
                'expected': expected[json.dumps({k: (sorted(vectors[-1][k]) if k == 'dbg' else vectors[-1][k]) for k in DOMAINS}, sort_keys=True)]})
